@@ -47,16 +47,21 @@ META = {
                   "=> stored value is the source value for every exact cast semantics), noDouble_sound/complete "
                   "(unbounded nesting), x64_restored / public_restored_partial (every nesting, exception point, "
                   "flag-flipping body; no thread-local override). Full-strength restoration is refuted in the "
-                  "model and replayed on the real code (known finding).",
+                  "model and replayed on the real code (known finding). Round 2: descend_flag (flag inherited along every "
+                  "nesting path of function scopes / Loop / If / Scan bodies), single_no_double_sites / "
+                  "double_no_f32_detour_sites (closure, scan, literal, static-keyword and plugin-helper constants at every "
+                  "location), helper_no_detour (IR-type-first helper dtype), constI64_never_float, noSingle_sound/complete.",
     "level_note": "Trusted: Lean kernel + 3 axioms; the tabulating harness and the proto->tree translator "
                   "(cross-checked against a protobuf-reflection scan on every export); JAX hands over no float64 "
                   "while x64 is off (hypothesis of single_no_double, observed on every export; plugin abstract-eval "
                   "rules that broke it were fixed in /repo 8efd0fe). Freedom from float32 detours inside plugin "
-                  "lowerings is sampled by the program generator, not proved.",
+                  "lowerings is sampled, not proved: 20-op program vocabulary x placements, plus (round 2) every registry "
+                  "plugin that is a float64 array function x producers (differential probe) and the repo's own plugin "
+                  "testcases re-exported in float64 (quick: seeded sample, thorough: all).",
     "design_ref": "DESIGN.md §3 C09",
 }
 
-MODS = ["J2O.Props.C09", "J2O.GenProps.C09"]
+MODS = ["J2O.Props.C09", "J2O.GenProps.C09", "J2O.Props.C09Scope", "J2O.GenProps.C09Scope"]
 FK = {"float16": 16, "float32": 32, "float64": 64}
 FKS = {16: "f16", 32: "f32", 64: "f64", 0: "none"}
 PROBE = [0.1, 1.0 / 3.0, math.pi, 1e-3]        # none is representable in float32
@@ -332,7 +337,16 @@ def postTable : List (String × String × String × Nat × Bool) := {lean_list(
 end J2O.Gen.C09
 """
     write_if_changed(LEAN / "J2O/Gen/C09.lean", src)
+    # round 2: the scope tables (real child contexts, sites, ir_dtype_to_numpy) -> Gen/C09Scope.lean
+    import sys
+    import c09_scope
+    global LAST_SCOPE_TABS
+    LAST_SCOPE_TABS = c09_scope.tabulate_scope(sys.modules[__name__])
+    c09_scope.generate_scope(LAST_SCOPE_TABS)
     return tabs
+
+
+LAST_SCOPE_TABS: Optional[dict] = None
 
 
 # ----------------------------------------------------------------------------- scanner tie
@@ -1197,6 +1211,69 @@ def _detour_site(sites: list[str]) -> str:
     return sites[0] if sites else "?"
 
 
+LOC_PATH = {"top": [], "jit": [], "fori": ["sub"], "while": ["sub"], "cond": ["sub"], "scan": ["scan"],
+            "scan_xs": ["scan"], "fn": ["fn"], "fn_cls": ["fn"], "fn_in_fn": ["fn", "fn"], "fori_in_fn": ["fn", "sub"],
+            "cond_in_scan": ["scan", "sub"]}
+LOC_OPS = ("mul", "add", "sub", "div", "rsub", "rdiv")
+
+
+def located_constants(model, case: dict) -> list[dict]:
+    """The tensors of the exported model (initializers and Constant values, every graph / function body)
+    that hold the program's probe constant: declared code, stored width, values, container."""
+    import onnx
+    from onnx import numpy_helper
+    import c09_programs as P
+    kind, vi = case["kind"], case["vi"]
+    scalar = kind in ("pyfloat", "np16", "np32", "np64")
+    nkind = "arr64" if kind == "jnparr" else kind      # (a jnp array must not be rebuilt under another x64 mode)
+    srcs = [np.asarray(P.make_const(nkind, vi + d), dtype=np.float64).reshape(-1) for d in (0, 1)]
+    out = []
+
+    def consider(t, path, is_node):
+        if t.data_type not in (1, 10, 11, 16):
+            return
+        arr = np.asarray(numpy_helper.to_array(t), dtype=np.float64).reshape(-1)
+        for src in srcs:
+            if arr.size == (1 if scalar else 4) and arr.size == src.size and \
+                    np.all(np.abs(arr - src) <= 2e-3 * np.abs(src)):
+                out.append({"code": int(t.data_type), "bits": {1: 32, 10: 16, 11: 64, 16: 16}[t.data_type],
+                            "exact": bool(np.array_equal(arr, src)), "node": is_node,
+                            "in_function": path.startswith("function:"), "where": path})
+                return
+    for path, g in _all_graphs(model):
+        for init in getattr(g, "initializer", []):
+            consider(init, path, False)
+        for n in g.node:
+            if n.op_type == "Constant":
+                for a in n.attribute:
+                    if a.type == onnx.AttributeProto.TENSOR:
+                        consider(a.t, path, True)
+    return out
+
+
+def location_request(case: dict, flag: bool, all_f64: bool) -> Optional[str]:
+    """The Lean `Site` (nesting path x constant source) of the program's constant, when the source dtype
+    JAX hands over is determined by the case: flag off -> float32 everywhere; flag on and an all-float64
+    jaxpr -> float64 everywhere."""
+    pl, kind = case["placement"], case["kind"]
+    if pl not in LOC_PATH or case["op"] not in LOC_OPS:
+        return None
+    if flag and (not all_f64 or kind not in ("pyfloat", "np64", "arr64", "jnparr")):
+        return None
+    if not flag and kind not in ("pyfloat", "np32", "np64", "arr32", "arr64", "jnparr"):
+        return None
+    w = "f64" if flag else "f32"
+    path = [("sub" if flag else "subkeep") if p == "scan" else p for p in LOC_PATH[pl]]
+    if kind in ("pyfloat",):
+        src = {"k": "lit", "aval": w, "prefer": "none", "src": "f64"}
+    elif kind in ("np32", "np64"):
+        src = {"k": "lit", "aval": w, "prefer": "none", "src": w}
+    else:
+        src = ({"k": "scan", "aval": w, "arr": w} if LOC_PATH[pl] and LOC_PATH[pl][-1] == "scan"
+               else {"k": "closure", "aval": w, "arr": w})
+    return json.dumps({"op": "site", "flag": flag, "path": path, "src": src})
+
+
 def check_programs(chk: Check, rng: common.Rng, thorough: bool, calib: dict) -> dict:
     cases = gen_cases(rng, thorough)
     calibrated = {op for op, v in calib.items() if isinstance(v, float) and v < 1e-13}
@@ -1207,6 +1284,7 @@ def check_programs(chk: Check, rng: common.Rng, thorough: bool, calib: dict) -> 
     dist: dict[str, int] = {}
     forms_dist: dict[str, int] = {}
     scan_lines, scan_meta = [], []
+    loc_lines, loc_meta = [], []
     found = 0
     for ci, case in enumerate(cases):
         variants = [(False, rng.choice(["float32", "float64"])), (True, "float64")]
@@ -1248,6 +1326,14 @@ def check_programs(chk: Check, rng: common.Rng, thorough: bool, calib: dict) -> 
             chk.count({"case": cid, "flag": flag, "spec": spec, "codes": res["codes"], "all_f64": res["all_f64"],
                        "err": res["err"]}, nontrivial=nontrivial, sample_every=40)
             replay = {"case": case, "flag": flag, "spec": spec, "glob0": glob0, "form": form, "observed": slim(res)}
+            lreq = location_request(case, flag, res["all_f64"])
+            if lreq is not None:
+                locs = located_constants(res["model"], case)
+                if locs:
+                    loc_lines.append(lreq)
+                    loc_meta.append((cid, flag, spec, locs, found))
+                else:
+                    stats["constants_not_located"] = stats.get("constants_not_located", 0) + 1
             want_in = 11 if flag else 1
             if res["in_codes"] and res["in_codes"][0] != want_in:
                 found += 1
@@ -1325,6 +1411,27 @@ def check_programs(chk: Check, rng: common.Rng, thorough: bool, calib: dict) -> 
         if (a != "ok") != py_bad:
             raise RuntimeError(f"Lean scanner ({a}) and reflection scan ({py_bad}) disagree on {cid}")
     chk.add("traces_validated_against_impl", len(scan_lines))
+    # ---- constant kinds x locations: the constant found in the real export against the Lean `Site` model
+    loc_answers = common.run_driver("C09", loc_lines)
+    loc_diffs, n_loc = [], 0
+    rank = {"f16": 0, "f32": 1, "f64": 2}
+    for (cid, flag, spec, locs, found_before), a in zip(loc_meta, loc_answers):
+        if not a.startswith("code="):
+            raise RuntimeError(f"driver could not answer the site request of {cid}: {a}")
+        parts = dict(p.split("=") for p in a.split())
+        pth = parts["path"].split(">") + [parts["final"]]
+        mcode = 11 if (flag and pth[-2] == "f32") else int(parts["code"])
+        mbits = {"f16": 16, "f32": 32, "f64": 64}[parts["final"]]
+        mexact = all(rank[x] <= rank[y] for x, y in zip(pth, pth[1:]))
+        for loc in locs:
+            n_loc += 1
+            ok = (loc["code"], loc["bits"]) == (mcode, mbits) and (not flag or loc["exact"] == mexact) and \
+                (not loc["in_function"] or loc["node"])
+            if not ok:
+                loc_diffs.append({"case": cid, "flag": flag, "spec": spec, "observed": loc, "model": a})
+    chk.add("traces_validated_against_impl", n_loc)
+    stats["location_tie"] = {"requests": len(loc_lines), "constants_located": n_loc, "disagreements": len(loc_diffs),
+                             "examples": loc_diffs[:6]}
     stats["programs"] = len(cases)
     stats["scanner_requests"] = len(scan_lines)
     stats["distribution_placement_flag"] = dist
@@ -1514,8 +1621,13 @@ def run(chk: Check) -> None:
         phases[name] = round(time.time() - t0, 1)
         t0 = time.time()
 
+    import sys
+    import c09_scope
+    import c09_probe
+    H = sys.modules[__name__]
     tabs = generate()
-    chk.info("tables", {k: len(v) for k, v in tabs.items()})
+    stabs = LAST_SCOPE_TABS
+    chk.info("tables", {**{k: len(v) for k, v in tabs.items()}, **{"scope_" + k: len(v) for k, v in stabs.items()}})
     lap("tabulate")
     proved = chk.prove(MODS, checker=thorough)
     lap("lean")
@@ -1531,6 +1643,19 @@ def run(chk: Check) -> None:
         chk.finding({"kind": "table_row", "obligation": rb["obligation"], "table": rb["table"], "row": rb["row"]},
                     f"real /repo function contradicts {rb['obligation']}: {ROW_CALL[rb['table']]} -> {rb['row']}",
                     {"row_violation": rb})
+    srow_bad = c09_scope.row_violations_scope(stabs)
+    for rb in srow_bad[:40]:
+        chk.finding({"kind": "table_row", "obligation": rb["obligation"], "table": rb["table"], "row": rb["row"]},
+                    f"real /repo function contradicts {rb['obligation']}: {c09_scope.ROW_CALL[rb['table']]} -> {rb['row']}",
+                    {"scope_row_violation": rb})
+    row_bad = row_bad + srow_bad
+    for name, rows in stabs.items():
+        for r in rows:
+            chk.count({"table": "scope_" + name, "row": [list(x) if isinstance(x, tuple) else x for x in r]},
+                      nontrivial=True, sample_every=60)
+    sdrift = c09_scope.model_drift_scope(H, stabs)
+    chk.info("hand_model_vs_live_rows_scope", sdrift)
+    chk.add("traces_validated_against_impl", sdrift["requests"])
     for name, rows in tabs.items():
         for r in rows:
             chk.count({"table": name, "row": list(r)}, nontrivial=(name != "policy" or r[3] is not None),
@@ -1553,8 +1678,17 @@ def run(chk: Check) -> None:
     chk.info("programs", stats["programs"])
     chk.info("disagreements_checked", stats["findings"] + len(row_bad))
     lap("programs")
+    ops_stats = c09_probe.check_ops(H, chk, rng, thorough, calib)
+    chk.info("ops_x_producers", ops_stats)
+    lap("ops")
+    tc_stats = c09_probe.check_testcases(H, chk, rng, thorough, calib)
+    chk.info("plugin_testcases", tc_stats)
+    lap("testcases")
     chk.info("phase_seconds", phases)
     chk.log(f"phases: {phases}")
+    chk.log(f"ops={ops_stats['ops']} producers={ops_stats['producers']} pairs_probed={ops_stats['pairs_probed']} "
+            f"max_err_pairs={ops_stats['max_err_pairs']:.2e} testcases={tc_stats['sampled']}/{tc_stats['eligible_testcases']} "
+            f"all_f64={tc_stats['all_f64']} accurate={tc_stats['accurate']}")
     chk.log(f"programs={stats['programs']} exports={stats['exports']} flag_off_scanned={stats['flag_off_scanned']} "
             f"flag_on_probed={stats['flag_on_probed']} max_err_all_f64={stats['max_err_all_f64']:.2e} "
             f"x64_checked={stats['x64_checked']} cm_traces={x64['context_manager_traces']}")
@@ -1571,6 +1705,11 @@ def run(chk: Check) -> None:
         chk.violation({"correspondence": "x64 flag machine: real context managers differ from the proven model",
                        "cases": x64["context_manager_disagreements"]}, name="x64-correspondence",
                       no_failing_input=True)
+    lt = stats["location_tie"]
+    if lt["disagreements"] and not chk.violations:
+        chk.violation({"correspondence": "constant kinds x locations: the constant in the real export differs from the "
+                                         "Lean Site model (declared type / stored width / exactness / container)",
+                       "cases": lt["examples"]}, name="location-correspondence", no_failing_input=True)
     if x64["n_public_disagreements"]:
         chk.violation({"correspondence": "public to_onnx: flag trace differs from publicToOnnx in the model",
                        "cases": x64["public_disagreements"]}, name="x64-public-correspondence",
@@ -1583,13 +1722,24 @@ def run(chk: Check) -> None:
         "disagreement on a model with an uncalibrated operator (ORT's HammingWindow/BlackmanWindow double kernels are "
         "only float-accurate, Gelu(tanh) likewise) counts only if the ONNX reference evaluator shows it too",
         "no thread-local jax.enable_x64 override around the call (otherwise: known finding F-C09-x64-override)",
+        "ops x producers / plugin testcases: a disagreement counts as a float32 detour only if the op and the producer "
+        "are each exact to 1e-12 on their own (composition), or single precision is written in the model (Cast to a "
+        "narrow float, narrow tensor, full-significand float32 number stored as DOUBLE) and the disagreement does not "
+        "depend on ORT; other disagreements (igamma, bessel, digamma, zeta, erf family in the reference evaluator) are "
+        "recorded as approximation_or_runtime_kernel",
     ]
     chk.coverage["rule"] = (
         "tables: every row of the complete finite domains (exhaustive). scanner: planted DOUBLE at each occurrence "
         "kind x nesting pattern + seeded mixes; every real export translated and scanned. x64: all depth<=2 nestings x "
         "body atoms x initial value x override + seeded deeper programs; public entry x 11 scenarios. programs: every "
         "placement x constant kind, every op at top level and in a body, x both flags x float32/float64 specs; "
-        "non-trivial = body placement or more than one element type")
+        "non-trivial = body placement or more than one element type. scope tables: every parent state x child kind, "
+        "34 chains of real child contexts, 224 constants through real child contexts, ir_dtype_to_numpy on its domain "
+        "(exhaustive). constant kinds x locations: every export whose constant appears verbatim is located in the model "
+        "and compared with the Lean Site model. ops x producers: every registry key that is a float64 array function "
+        "(one or two operands) directly on the input, and (quick: ops whose lowering writes a float constant / Cast / "
+        "body; untyped-output producers + 5 seeded others; thorough: all ops x 19 producers) on a producer's output. "
+        "plugin testcases: quick 36 seeded of the eligible ones, thorough all")
     chk.coverage["exhaustive"] = False
 
 
@@ -1598,6 +1748,22 @@ def replay(path: str) -> int:
     logging.disable(logging.CRITICAL)
     rep = json.loads(open(path).read())
     print(json.dumps({k: v for k, v in rep.items() if k != "observed"}, indent=1, default=str)[:2500])
+    if "scope_row_violation" in rep:
+        import sys
+        import c09_scope
+        rb = rep["scope_row_violation"]
+        now = [r for r in c09_scope.row_violations_scope(c09_scope.tabulate_scope(sys.modules[__name__]))
+               if r["obligation"] == rb["obligation"] and r["row"] == rb["row"]]
+        print("row still violates:", bool(now))
+        return 1 if now else 0
+    if rep.get("family") == "ops":
+        import sys
+        import c09_probe
+        return c09_probe.replay_ops(sys.modules[__name__], rep)
+    if rep.get("family") == "testcases":
+        import sys
+        import c09_probe
+        return c09_probe.replay_testcase(sys.modules[__name__], rep)
     if "row_violation" in rep:
         rb = rep["row_violation"]
         now = [r for r in row_violations(tabulate()) if r["obligation"] == rb["obligation"] and r["row"] == rb["row"]]
